@@ -991,6 +991,11 @@ def case_deep(rec, n, kind):
     specs = [I((i * 7919) % 100003 - 50000) for i in range(n)]
     if kind == 'tuple':
         specs = [['tuple', specs], I(1)]
+    if kind == 'nest':          # a tuple nested n levels deep (one cell level per nesting level: valid up to about 1000 levels)
+        t = ['tuple', [I(5)]]
+        for _ in range(n):
+            t = ['tuple', [t]]
+        specs = [t, I(1)]
     want = tuple(lv_spec(s) for s in specs)
     vals = [to_lib(s) for s in specs]
     rec.state(('deep', n, kind))
@@ -1002,6 +1007,9 @@ def case_deep(rec, n, kind):
             c2 = VmStack.serialize(vals)
             back = VmStack.deserialize(c1.begin_parse())
     except Exception as e:
+        if kind == 'nest':
+            rec.violation(f'deep:nest:{n}:raises:{exc_name(e)}', f'a tuple nested {n} levels deep: {exc_name(e)}: {str(e)[:100]} (under the default recursion limit)', 'case_deep', args)
+            return
         rec.violation(f'deep:{kind}:raises', f'a {kind} of {n} small integers: {exc_name(e)}: {str(e)[:100]} (under the default recursion limit)', 'case_deep', args)
         return
     rec.trace()
@@ -1019,6 +1027,8 @@ def shard_deep(rec):
         case_deep(rec, n, 'stack')
     for n in (128, 254, 255):
         case_deep(rec, n, 'tuple')
+    for n in (1, 50, 200, 300, 500, 700):
+        case_deep(rec, n, 'nest')
     rec.sample({'stack_values': 1022, 'oracle': 'schema decode + library parse + second serialisation, default recursion limit'})
 
 
